@@ -293,6 +293,29 @@ pub fn proc_mirror(pid: i32, bytes: &[u8]) -> Vec<(String, String)> {
     fails
 }
 
+/// The linker debug stream against the checker's own walk of the linker list that (phdr, phnum) lead to.
+fn judge_dso(p: &Puppet, use_phdr: u64, use_phnum: u64, d: &Dump, tag: &str) -> Vec<(String, String)> {
+    let mut fails: Vec<(String, String)> = Vec::new();
+    match (walk_linker(p, use_phdr, use_phnum), &d.dso) {
+        (Some((ver, brk, ldbase, dyn_addr, dyn_bytes, objs)), Some(dso)) => {
+            if dso.version != ver || dso.brk != brk || dso.ldbase != ldbase || dso.dynamic != dyn_addr {
+                fails.push((format!("{tag}dso-header"), format!("version/brk/ldbase/dynamic {}/{:#x}/{:#x}/{:#x}, the target has {ver}/{brk:#x}/{ldbase:#x}/{dyn_addr:#x}", dso.version, dso.brk, dso.ldbase, dso.dynamic)));
+            }
+            if dso.dynamic_bytes != dyn_bytes {
+                fails.push((format!("{tag}dso-dynamic-bytes"), "the copied dynamic section differs from the target's".into()));
+            }
+            let got: Vec<(u64, String, u64)> = dso.maps.iter().map(|m| (m.addr, m.name.clone().unwrap_or_default(), m.ld)).collect();
+            if got != objs {
+                let i = got.iter().zip(objs.iter()).position(|(a, b)| a != b).unwrap_or(got.len().min(objs.len()));
+                fails.push((format!("{tag}dso-object-list"), format!("{} objects listed, the linker list has {}; first difference at #{i}: {:?} vs {:?}", got.len(), objs.len(), got.get(i), objs.get(i))));
+            }
+        }
+        (Some(_), None) => fails.push((format!("{tag}dso-missing"), "no linker debug stream although the linker list is readable".into())),
+        (None, _) => {}
+    }
+    fails
+}
+
 pub fn run_case(c: &Case) -> Vec<(String, String)> {
     let mut fails = Vec::new();
     let env = env_set(c.env);
@@ -387,6 +410,7 @@ pub fn run_case(c: &Case) -> Vec<(String, String)> {
         }
         _ => (phdr, phnum),
     };
+    let o2 = o.clone();
     let out = env_dump(&p, &EnvSpec { opts: o, plan, ..Default::default() }, HashMap::new(), None);
     let bytes = match &out.result {
         DumpResult::Ok(b) => b.clone(),
@@ -453,22 +477,25 @@ pub fn run_case(c: &Case) -> Vec<(String, String)> {
         fails.push(("sysinfo-missing".into(), "no system info stream".into()));
     }
     // e. linker debug stream
-    match (walk_linker(&p, use_phdr, use_phnum), &d.dso) {
-        (Some((ver, brk, ldbase, dyn_addr, dyn_bytes, objs)), Some(dso)) => {
-            if dso.version != ver || dso.brk != brk || dso.ldbase != ldbase || dso.dynamic != dyn_addr {
-                fails.push(("dso-header".into(), format!("version/brk/ldbase/dynamic {}/{:#x}/{:#x}/{:#x}, the target has {ver}/{brk:#x}/{ldbase:#x}/{dyn_addr:#x}", dso.version, dso.brk, dso.ldbase, dso.dynamic)));
+    fails.extend(judge_dso(&p, use_phdr, use_phnum, &d, ""));
+    // ... and again for the SECOND request on one writer with the same configuration (caller-supplied values
+    // must still win then)
+    if c.cpu == 0 && c.release == 0 && !c.uname_fails {
+        p.quiesce();
+        let mut w = crate::dump::make_writer(p.pid, &o2);
+        let mut c1 = std::io::Cursor::new(Vec::new());
+        let _ = crate::dump::dump_with(&mut w, &mut c1);
+        p.quiesce();
+        let mut c2 = std::io::Cursor::new(Vec::new());
+        if let DumpResult::Ok(b2) = crate::dump::dump_with(&mut w, &mut c2) {
+            let d2 = Dump::parse(&b2);
+            fails.extend(judge_dso(&p, use_phdr, use_phnum, &d2, "second-request/"));
+            for (k, m) in proc_mirror(pid, &b2) {
+                fails.push((format!("second-request/{k}"), m));
             }
-            if dso.dynamic_bytes != dyn_bytes {
-                fails.push(("dso-dynamic-bytes".into(), "the copied dynamic section differs from the target's".into()));
-            }
-            let got: Vec<(u64, String, u64)> = dso.maps.iter().map(|m| (m.addr, m.name.clone().unwrap_or_default(), m.ld)).collect();
-            if got != objs {
-                let i = got.iter().zip(objs.iter()).position(|(a, b)| a != b).unwrap_or(got.len().min(objs.len()));
-                fails.push(("dso-object-list".into(), format!("{} objects listed, the linker list has {}; first difference at #{i}: {:?} vs {:?}", got.len(), objs.len(), got.get(i), objs.get(i))));
-            }
+        } else {
+            fails.push(("second-request/dump-failed".into(), "the second request on the same writer failed".into()));
         }
-        (Some(_), None) => fails.push(("dso-missing".into(), "no linker debug stream although the linker list is readable".into())),
-        (None, _) => {}
     }
     for k in 0..c.fds {
         let _ = std::fs::remove_file(format!("{dir}/unlinked_{}_{k}", p.pid));
